@@ -9,7 +9,7 @@ Definition WB : nat := N.to_nat WAL_BLOCK_SIZE.
 Section Inst.
 Variable compress : list byte -> list byte.
 Variable decompress : list byte -> option (list byte).
-Definition wal_sessions := sessions WB wal_crc compress.
+Definition wal_sessions := sessions WB wal_crc compress decompress.
 Definition wal_read_all := read_all WB wal_crc decompress.
 Definition wal_repair := repair WB wal_crc compress decompress.
 Definition wal_known_unparsed_tail := known_unparsed_tail WB wal_crc decompress.
